@@ -89,9 +89,14 @@ def opt_disjoint(ctx):
         if r == "true":
             n_true += 1
             # must come from exhaustion: the last iterator test is None, and no hit on the path
-            exhausted = any(g.endswith("=None") and "next(" in g for g in gs[-2:])
+            ex = [strip_ver(g) for g in gs[-2:] if g.endswith("=None") and "next(" in g]
+            exhausted = bool(ex)
             hit = any(g.startswith("CodePointInversionList::contains(") for g in gs)
             out.append(ok("true-after-exhaustion") if exhausted and not hit else bad("true-after-exhaustion", "is_disjoint returns true without having exhausted the class (%s)" % gs[-2:], loc))
+            # ... of the whole class: the iterator that ran out is the class's own character iterator (or the loop
+            # variable it was moved into), not a truncated view of it (take, take_while, step_by, skip ...)
+            full = all(re.match(r"^variant\((?:<[^>]*(?:<[^>]*>)?[^>]*>::)?next\((?:v|CodePointInversionList::iter_chars\(a[12]\.0\))\)\)=None$", g) for g in ex)
+            out.append(ok("true-after-exhaustion|of-the-whole-class") if exhausted and full else bad("true-after-exhaustion|of-the-whole-class", "is_disjoint answers true when an iterator runs out that does not cover the whole class (%s): characters that were never looked at may be common to both" % (ex or gs[-2:]), loc))
         elif r == "false":
             pass
         else:
